@@ -354,6 +354,7 @@ func checkC06(w *World, r *Report) {
 	printerRules(w, r, "C06.one-escaper")
 	intInverseRule(w, r, "C06.int")
 	readerLimitRule(w, r, "C06.no-limit")
+	atomSiteRule(w, r, "C06.atom-site")
 	// "yields a value equal to the original": the equality the round trip is judged by
 	r.include("C06.equal-", "C14.", "the value read back must be equal to the original under =, so = must be structural equality on data", checkC14, func(rule string) bool {
 		switch rule {
@@ -368,6 +369,13 @@ func checkC06(w *World, r *Report) {
 		return
 	}
 	rs, why := findReaderStrings(w, e)
+	if why != "" && rs != nil && len(rs.foreign) > 0 {
+		// a string case is missing because its result is computed some other way: that is the finding
+		for _, ret := range rs.foreign {
+			r.bad("C06.escape", rs.fn, "string result decoded outside the un-escape table", ret.Pos(), "read_atom returns a string that is not the delimiter-stripped token passed once through the replacement table (a loop, a second decoder, a conditional rewrite): strings the printer wrote come back altered ("+why+")")
+		}
+		return
+	}
 	if why != "" {
 		r.undecided("C06.escape", nil, "reader string cases", token.NoPos, why)
 		return
@@ -776,6 +784,9 @@ func checkC16(w *World, r *Report) {
 	}
 	replAccumulateRule(w, r, multi, "C16.repl-reset")
 	leafReaderRule(w, r, "C16.one-token")
+	// what a text is classified as depends on the text alone: the reader keeps nothing between (or across) reads
+	r.rule("C16.read-stateless", "reading assigns no package-level variable (no buffer, cache or counter carried from one read to the next or shared by two reads in progress): whether a text is complete, incomplete or malformed is decided from that text alone (shared with C17.read-stateless)")
+	noGlobalWritesRule(w, r, "C16.read-stateless", "the reader", append([]*ssa.Function{w.Fn("", "READ"), w.Fn("", "READWithPreamble")}, w.pkgFuncs("reader")...))
 	// who may say "incomplete": the message shape the REPL takes for "keep reading" is built only where the
 	// token stream really ends inside an open bracket (the template in read_list) and for the raw-string
 	// delimiter (read_atom); any other place that builds such a message classifies input by another criterion
@@ -1087,6 +1098,21 @@ func checkC15(w *World, r *Report) {
 		}
 	}
 	r.check(okData && okRet, "C15.data", rp, "value returned for a placeholder", rp.Pos(), "the table entry under the token's text", "read_placeholder does not return the table entry for the token")
+	// ... and nothing else: a placeholder without a value reads as nil, whatever else is around
+	for _, rt := range (&evalModel{}).returns(rp) {
+		ret := rt[0].(*ssa.Return)
+		ev, _ := rt[2].(ssa.Value)
+		if ev != nil && !isNilConst(ev) {
+			continue
+		}
+		for _, lf := range e.producers(rt[1].(ssa.Value), map[ssa.Value]bool{}, 0) {
+			if isNilConst(lf) {
+				continue
+			}
+			_, isLookup := lf.(*ssa.Lookup)
+			r.check(isLookup, "C15.data", rp, "source of the value a placeholder reads as", ret.Pos(), "the value table (nil when absent)", "a placeholder can read as something that is not its entry in the value table ("+describeVal(e, lf, 0)+"): what the text means then depends on more than the text and the assignment - a placeholder without a value no longer reads as nil")
+		}
+	}
 	// token
 	sites := 0
 	for _, fn := range w.Funcs {
@@ -1214,6 +1240,7 @@ func checkC15(w *World, r *Report) {
 	pat := ""
 	textIntactRule(w, r, "C15.text-intact")
 	readerLimitRule(w, r, "C15.no-limit")
+	printerOneLineRule(w, r, "C15.one-line")
 	printerRules(w, r, "C15.one-escaper")
 	constFormatRule(w, r, "C15.const-format")
 	r.rule("C15.verbatim", "the preamble line matched against the pattern is a piece of the text that was passed in, cut out only by operations that return part of their input unchanged (Cut, Trim…, slicing): a value's characters, including runs of blanks inside strings, reach the reader as they were written")
@@ -1505,6 +1532,12 @@ func escapeAgreement(w *World, r *Report, e *Engine, rule string) {
 		return
 	}
 	rs, why := findReaderStrings(w, e)
+	if why != "" && rs != nil && len(rs.foreign) > 0 {
+		for _, ret := range rs.foreign {
+			r.bad(rule, rs.fn, "string result decoded outside the un-escape table", ret.Pos(), "read_atom returns a string that is not the delimiter-stripped token passed once through the replacement table: a value the printer escaped may come back decoded differently ("+why+")")
+		}
+		return
+	}
 	if why != "" {
 		r.undecided(rule, nil, "reader string cases", token.NoPos, why)
 		return
@@ -1650,6 +1683,25 @@ func replAccumulateRule(w *World, r *Report, multi *ssa.Function, rule string) {
 				if len(pred.Instrs) > 0 {
 					pos = pred.Instrs[len(pred.Instrs)-1].Pos()
 				}
+				// ... and on nothing else: the reader's verdict is not second-guessed by a count of characters
+				if kept {
+					for _, a := range knownConds(pred) {
+						extra := ""
+						switch c := a.v.(type) {
+						case *ssa.Call:
+							if sc := c.Call.StaticCallee(); sc != nil && sc != multi && inModule(sc) {
+								extra = "the answer of " + sc.Name()
+							}
+						case *ssa.BinOp:
+							if isIntType(c.X.Type()) || isIntType(c.Y.Type()) {
+								extra = "the comparison " + describeVal(nil, c, 0)
+							}
+						}
+						if extra != "" {
+							r.bad(rule, ex, "further condition on keeping the input", pos, "whether the REPL keeps reading also depends on "+extra+": text the reader classified as incomplete is dropped and reported as an error when that second test disagrees (closing brackets inside strings and comments are characters, not tokens)")
+						}
+					}
+				}
 				r.check(kept, rule, ex, "input carried into the next round", pos, "only after the classifier said the text is incomplete", "the lines typed so far are kept on a path where the text was not classified as incomplete (an input rejected with another error): every following line is appended to the rejected text, so no complete expression is read on its own again")
 			}
 			for i, v := range phi.Edges {
@@ -1713,4 +1765,37 @@ func leafReaderRule(w *World, r *Report, rule string) {
 		r.check(okOne && okCalls, rule, leaf, "tokens taken by a single-token reader", leaf.Pos(), "exactly one, on every path", fmt.Sprintf("%s takes %d tokens (or none on some path): the reader's position no longer matches the brackets it has seen", w.fnName(leaf), len(nexts)))
 	}
 	r.floor(rule, "single-token readers", n, 2)
+}
+
+// printerOneLineRule: the preamble carries one value per line, so whatever the printer writes in readable mode
+// stays on one line: the only line breaks that can reach its output are those of the strings it prints (which
+// C15.line-safe deals with). No string constant of the printer that contains a line break is part of its
+// output: such constants occur only as the text to be replaced or searched for.
+func printerOneLineRule(w *World, r *Report, rule string) {
+	r.rule(rule, "no string constant containing a line break is emitted by the printer: in package printer such constants appear only as the 'from' text of a replacement or as the argument of a search (a separator, an indentation or a wrapped layout with line breaks would end the preamble line in the middle of a value)")
+	n := 0
+	for _, fn := range w.pkgFuncs("printer") {
+		for _, b := range fn.Blocks {
+			for _, in := range b.Instrs {
+				for _, opp := range in.Operands(nil) {
+					k, ok := (*opp).(*ssa.Const)
+					if !ok || k.Value == nil || k.Value.Kind() != constant.String || !strings.ContainsAny(constant.StringVal(k.Value), "\n\r") {
+						continue
+					}
+					n++
+					okUse := false
+					if c, isCall := in.(*ssa.Call); isCall {
+						switch {
+						case isStringsFn(c, "Replace", "ReplaceAll") && len(c.Call.Args) > 1 && c.Call.Args[1] == ssa.Value(k) && !(len(c.Call.Args) > 2 && c.Call.Args[2] == ssa.Value(k)):
+							okUse = true
+						case isStringsFn(c, "Contains", "ContainsAny", "Index", "IndexByte", "HasPrefix", "HasSuffix", "Count"):
+							okUse = true
+						}
+					}
+					r.check(okUse, rule, fn, "string constant with a line break in the printer", in.Pos(), "only searched for or replaced", fmt.Sprintf("the printer uses %q as part of what it writes: a value printed with it spans several lines, the preamble reader takes the first line for the whole value (the rest no longer reads, the placeholder silently becomes nil and the remaining lines are read as source)", constant.StringVal(k.Value)))
+				}
+			}
+		}
+	}
+	r.floor(rule, "string constants with line breaks in the printer", n, 1)
 }
